@@ -240,6 +240,10 @@ def match_known(v, known):
             continue
         if k.get('gotrace') and not any(k['gotrace'] in f for f in v.get('gotrace', [])):
             continue
+        if k.get('schedule_contains'):
+            sched = ' '.join((v.get('model') or {}).get('schedule', []) or [])
+            if not all(x in sched for x in k['schedule_contains']):
+                continue
         return k
     return None
 
